@@ -54,10 +54,15 @@ class Opaque:
 
 
 class LegInterp:
-    def __init__(self, fi, env, consts=None, tol_zero=True):
+    IDENTITY_STEPS = {'_local_hamiltonian_step': 3, '_local_bond_step': 2, '_minimize_local_energy': 3}
+
+    def __init__(self, fi, env, consts=None, repo=None, shared=None, body=None):
         self.fi = fi
         self.env = dict(env)
         self.consts = consts or {}
+        self.repo = repo
+        self.shared = shared if shared is not None else {'counter': 0, 'factor_calls': [], 'events': [], 'depth': 0}
+        self.body = body
         self.counter = 0
         self.events = []          # factorisation calls, reshapes ... for the rules
         self.ret = None
@@ -65,7 +70,7 @@ class LegInterp:
 
     # ------------------------------------------------------------------
     def run(self):
-        self.block(self.fi.node.body)
+        self.block(self.body if self.body is not None else self.fi.node.body)
         return self.ret
 
     def block(self, stmts):
@@ -285,6 +290,7 @@ class LegInterp:
         groups = self.shape_groups(shape_node)
         out = lg.reshape(base, groups)
         self.events.append(('reshape', node, base, out))
+        self.shared['events'].append(('reshape', node, self.fi, base, out))
         return out
 
     def mult(self, a, b, node):
@@ -393,7 +399,51 @@ class LegInterp:
             return Scalar(norm(e))
         if f in ('np.array', 'np.identity', 'np.zeros', 'np.ones'):
             return Opaque(norm(e))
+        if isinstance(e.func, ast.Name) and e.func.id in self.IDENTITY_STEPS:
+            # local evolution / optimisation step: the result has the leg structure of its tensor argument
+            # (C04.R2: the output of the local operators can replace their argument)
+            k = self.IDENTITY_STEPS[e.func.id]
+            v = self.ev(e.args[k])
+            if e.func.id == '_minimize_local_energy':
+                return TupleVal([Scalar('energy'), v])
+            return v
+        if f.startswith('contraction_') or f in ('np.identity', 'compute_right_operator_blocks', 'is_qsparse'):
+            return Opaque(norm(e))
+        if isinstance(e.func, ast.Name) and self.repo is not None:
+            r = self.repo.resolve_name(self.fi.module, e.func.id)
+            if r and r[0] == 'func':
+                return self.inline(r[1], e)
+        if f.startswith('contraction_') or f in ('np.identity', 'compute_right_operator_blocks'):
+            return Opaque(norm(e))
         raise LegError(f'{self.fi.qual}: call `{norm(e)[:70]}` not in the leg domain')
+
+    def inline(self, callee, e):
+        if self.shared['depth'] > 4:
+            raise LegError('call depth exceeded in the leg domain')
+        env, consts = {}, {}
+        args = list(e.args)
+        for p, a in zip(callee.params, args):
+            env[p] = self.ev(a)
+            if isinstance(a, ast.Constant):
+                consts[p] = a.value
+        for k in e.keywords:
+            if k.arg in callee.params:
+                env[k.arg] = self.ev(k.value)
+                if isinstance(k.value, ast.Constant):
+                    consts[k.arg] = k.value.value
+        for p in callee.params:
+            if p not in env and p in callee.defaults:
+                d = callee.defaults[p]
+                env[p] = Scalar(norm(d))
+                if isinstance(d, ast.Constant):
+                    consts[p] = d.value
+        sub = LegInterp(callee, env, consts, self.repo, self.shared)
+        self.shared['depth'] += 1
+        try:
+            out = sub.run()
+        finally:
+            self.shared['depth'] -= 1
+        return out
 
     def charge(self, x):
         """signed charge list of a q-number expression"""
@@ -412,8 +462,8 @@ class LegInterp:
             raise LegError(f'{f}: first argument is not a matrix in the leg domain')
         q0 = self.charge(e.args[1])
         q1 = self.charge(e.args[2])
-        self.counter += 1
-        n = self.counter
+        self.shared['counter'] += 1
+        n = self.shared['counter']
         tag = f'{"QR" if f == "qr" else "SVD"}{n}'
         lname, rname = ('Q', 'R') if f == 'qr' else ('U', 'V')
         lo = Occ(f'{lname}#{n}', lname)
@@ -446,8 +496,10 @@ class LegInterp:
         L = TVal(ln, [lrows, [lb]])
         R = TVal(rn, [[rb], rcols])
         qb = QV([(1, f'qbond#{n}')])
-        self.factor_calls.append({'node': e, 'kind': f, 'm': m, 'q0': q0, 'q1': q1, 'id': n,
-                                  'tol': e.args[3] if len(e.args) > 3 else None})
+        rec = {'node': e, 'kind': f, 'm': m, 'q0': q0, 'q1': q1, 'id': n, 'fi': self.fi,
+               'tol': e.args[3] if len(e.args) > 3 else None}
+        self.factor_calls.append(rec)
+        self.shared['factor_calls'].append(rec)
         if f == 'qr':
             return TupleVal([L, R, qb])
         return TupleVal([L, SigmaVal(n, f'bond#{n}'), R, qb])
